@@ -51,6 +51,7 @@ def sources():
         ("samename_ledger", os.path.join(core.VERIF, "sim", "c12", "schemas", "samename", "ledger.xsd"), False, 2),
         ("harness_all", os.path.join(core.VERIF, "sim", "c12", "schemas"), True, 3),
         ("features", os.path.join(core.VERIF, "sim", "c12", "schemas", "features"), False, 4),
+        ("idclash", os.path.join(core.VERIF, "sim", "c12", "schemas", "idclash"), False, 4),
         ("symlinked", os.path.join(core.VERIF, "sim", "c12", "schemas", "symlinked", "catalog"), False, 5),
         ("dtd_default_ns", f"{fx}/dtd/default_namespace.dtd", False, 1),
         ("dtd_prefix_ns", f"{fx}/dtd/prefix_namespace.dtd", False, 1),
@@ -281,6 +282,8 @@ def check(args):
     for i in range(npairs):
         s = rng.choices(srcs, weights)[0]
         params = gen_params(rng)
+        if s[0] == "idclash" and rng.random() < 0.8:
+            params["compound_fields__enabled"] = True  # sibling choices of two files end up in one class
         if s[0] in LOCATION_SENSITIVE and rng.random() < 0.7:
             params["structure_style"] = "filenames"  # the only style in which a file's location names its module
         pairs.append((s, params))
